@@ -2,7 +2,7 @@
    This file holds only the property theorems; proofs are in proofs/ConcFacts.v.
    What is logic here is the locking discipline and the publication protocol of parse trees
    (model/Conc.v, spec/ConcSpec.v); the Go runtime, its memory model and sync.Mutex are not modelled. *)
-From V Require Import lib.Base gen.GenLocks model.Conc spec.ConcSpec proofs.ConcFacts.
+From V Require Import lib.Base gen.GenLocks model.Conc spec.ConcSpec spec.ConcFullSpec proofs.ConcFacts proofs.ConcFullFacts.
 
 (* Data-race freedom, generically over the programs the threads run: under a valid schedule (a Lock
    blocks while the mutex is held, only the holder unlocks), if every thread obeys the static
@@ -36,14 +36,22 @@ Theorem C09_drf_partial : forall (threads : list thread) (sched : list nat) (tr 
 Proof. rewrite <- c09_methods_eq. exact drf_safehtml. Qed.
 Print Assumptions C09_drf_partial.
 
-(* The full statement: the same with all eight methods.  False of the faithful model because of D9
-   (props/C09_findings.v). *)
-Definition C09_drf_full_statement : Prop :=
+(* The full statement: the same with all eight methods the property allows concurrently.  It holds
+   since the repair of D9 (fix: hold the name space mutex in DefinedTemplates); the side condition
+   clean_all (every method obeys the discipline) is evaluated by the kernel on the regenerated
+   lock summaries. *)
+Theorem C09_drf_all_methods :
   forall (threads : list thread) (sched : list nat) (tr : list (nat * action)),
   (forall th, In th threads -> forall o, In o th ->
      exists n, In n api_methods /\ conforms (method_entries n) o) ->
   valid_schedule threads sched -> trace_of threads sched = Some tr ->
   publication_order c09_policy tr -> ~ race tr.
+Proof. exact drf_safehtml_full. Qed.
+Print Assumptions C09_drf_all_methods.
+
+Theorem C09_lock_discipline_full : lock_discipline_ok = true.
+Proof. exact discipline_full_ok. Qed.
+Print Assumptions C09_lock_discipline_full.
 
 (* Equals sequential, at the level of critical sections: when every call is one critical section that
    runs [step] on the shared state (followed by reads of published, immutable data, so that its result
